@@ -58,20 +58,21 @@ type G struct {
 	Excl   map[string]int  // how often a draw was steered away, by finding
 	labels map[string]bool
 
-	modPath   string
-	deps      []*Pkg
-	src       *Pkg
-	files     []*srcFile
-	ifaces    []*Iface
-	locals    []*Decl // local non-mocked declarations of the source package (Src text)
-	topNames  map[string]bool
-	declNames map[string]bool // names of source-package declarations (subset of topNames)
-	declFold  map[string]bool
-	methSeq   int
-	inPlace   bool
-	gopath    bool     // GOPATH + vendor layout
-	tparams   []tparam // in scope while drawing a generic interface
-	n         int
+	modPath    string
+	deps       []*Pkg
+	src        *Pkg
+	files      []*srcFile
+	ifaces     []*Iface
+	locals     []*Decl // local non-mocked declarations of the source package (Src text)
+	topNames   map[string]bool
+	declNames  map[string]bool // names of source-package declarations (subset of topNames)
+	declFold   map[string]bool
+	methSeq    int
+	inPlace    bool
+	gopath     bool     // GOPATH + vendor layout
+	forceNamed bool     // current interface has a blank type parameter (named v, v1.. by moq): keep generated parameter names away (F-L)
+	tparams    []tparam // in scope while drawing a generic interface
+	n          int
 }
 
 type tparam struct {
@@ -95,8 +96,9 @@ type Iface struct {
 	TParams        []TParamDecl
 	Embeds         []*Ty
 	Methods        []Meth
-	AliasOf        *Ty // type Name = T
-	DefOf          *Ty // type Name T (T an instantiated generic interface or named interface)
+	LiteralAlias   bool // type Name = interface{ ... }: the methods belong to an interface literal
+	AliasOf        *Ty  // type Name = T
+	DefOf          *Ty  // type Name T (T an instantiated generic interface or named interface)
 	AllMeths       map[string]bool
 	file           int
 	Exported       bool
@@ -350,7 +352,7 @@ func (g *G) genDepDecls(p *Pkg) {
 	i1.Src = fmt.Sprintf("type %s interface {\n\t%s(x int) error\n}", i1.Name, m1)
 	extra := g.Int(0, 6)
 	for k := 0; k < extra; k++ {
-		shape := g.Int(0, 15)
+		shape := g.Int(0, 16)
 		if g.Chance(g.P.MultiRefPct) {
 			shape = 14
 		}
@@ -443,6 +445,10 @@ func (g *G) genDepDecls(p *Pkg) {
 		case 12:
 			d := add(&Decl{Name: fresh(), Cmp: true, Alias: true, Iface: true, Methods: i1.Methods})
 			d.Src = fmt.Sprintf("type %s = %s", d.Name, i1.Name)
+		case 16:
+			d := add(&Decl{Name: fresh()})
+			d.Src = fmt.Sprintf(g.Pick([]string{"type %[1]s map[string]%[1]s", "type %[1]s []%[1]s", "type %[1]s struct {\n\tNext *%[1]s\n}", "type %[1]s func(%[1]s) %[1]s"}), d.Name)
+			g.label("dep:recursive-type")
 		case 13:
 			ma := g.freshMethod()
 			d := add(&Decl{Name: fresh(), Cmp: true, Iface: true, Methods: append([]string{ma}, i1.Methods...)})
@@ -820,7 +826,7 @@ func (g *G) sig(depth int, inner bool) *Sig {
 	if !inner && g.Chance(6) {
 		np = g.Int(maxP, maxP+3)
 	}
-	named := !g.Chance(g.P.UnnamedPct)
+	named := !g.Chance(g.P.UnnamedPct) || (g.forceNamed && !inner)
 	used := map[string]bool{}
 	fold := map[string]bool{}
 	for i := 0; i < np; i++ {
@@ -828,8 +834,11 @@ func (g *G) sig(depth int, inner bool) *Sig {
 		if named {
 			for tries := 0; ; tries++ {
 				n := g.paramName(used, i)
-				if g.Chance(5) {
+				if g.Chance(5) && !g.forceNamed {
 					n = "_"
+				}
+				if g.forceNamed && len(n) > 0 && n[0] == 'v' && strings.Trim(n[1:], "0123456789") == "" {
+					continue
 				}
 				if tries > 20 {
 					n = fmt.Sprintf("p%d", i)
@@ -1000,7 +1009,7 @@ func (g *G) genLocals() {
 	n := g.Int(0, 5)
 	for i := 0; i < n; i++ {
 		exported := !g.inPlace || g.Chance(60)
-		switch g.Int(0, 7) {
+		switch g.Int(0, 9) {
 		case 0:
 			d := &Decl{Name: g.freshTop(typeNamePool, exported), Cmp: true, Exported: exported}
 			d.Src = fmt.Sprintf("type %s struct {\n\tA int\n}", d.Name)
@@ -1030,6 +1039,26 @@ func (g *G) genLocals() {
 			d := &Decl{Name: g.freshTop(typeNamePool, exported), Exported: exported}
 			d.Src = fmt.Sprintf("type %s func(string) error", d.Name)
 			add(d)
+		case 8:
+			// an alias declared in the source package (the alias object lives here, its target may not)
+			var target *Decl
+			for _, d := range g.locals {
+				if !d.Iface && !d.Constr && d.NTParams == 0 && d.NonType == "" && !d.Alias {
+					target = d
+				}
+			}
+			if target != nil {
+				d := &Decl{Name: g.freshTop(typeNamePool, exported && target.Exported), Exported: exported && target.Exported, Cmp: target.Cmp, Alias: true}
+				d.Src = fmt.Sprintf("type %s = %s", d.Name, target.Name)
+				add(d)
+				g.label("local:alias")
+			}
+		case 9:
+			// recursive named types
+			d := &Decl{Name: g.freshTop(typeNamePool, exported), Exported: exported}
+			d.Src = fmt.Sprintf(g.Pick([]string{"type %[1]s map[string]%[1]s", "type %[1]s []%[1]s", "type %[1]s struct {\n\tNext *%[1]s\n}", "type %[1]s func(%[1]s) %[1]s", "type %[1]s chan %[1]s"}), d.Name)
+			add(d)
+			g.label("local:recursive-type")
 		case 7:
 			d := &Decl{Name: g.freshTop(typeNamePool, exported), Exported: exported, Cmp: true, Iface: true, NTParams: 1, TPCmp: []bool{false}}
 			ma := g.freshMethod()
@@ -1077,6 +1106,7 @@ func (g *G) genTParams(skipEnsure bool) ([]TParamDecl, bool) {
 		}
 		usedN[name] = true
 		tp := TParamDecl{Name: name}
+
 		k := g.Int(0, 13)
 		if g.P.ExecSafe && (k == 7 || k == 8 || k >= 10) {
 			k = g.Int(0, 6) // the reflective driver needs witness type arguments it can spell: any / comparable / unions only
@@ -1169,7 +1199,7 @@ func (g *G) genTParams(skipEnsure bool) ([]TParamDecl, bool) {
 				tp.ConSrc, tp.Kind = "any", "any"
 			}
 		case k == 11:
-			if i > 0 && hardKind() {
+			if i > 0 && tps[0].Name != "_" && hardKind() {
 				tp.ConSrc, tp.Kind = "~[]"+tps[0].Name, "param-dependent"
 			} else {
 				tp.ConSrc, tp.Kind = "any", "any"
@@ -1193,7 +1223,7 @@ func (g *G) genTParams(skipEnsure bool) ([]TParamDecl, bool) {
 			if len(one) > 0 && hardKind() {
 				nc := one[g.Int(0, len(one)-1)]
 				arg := name
-				if i > 0 && g.Chance(50) {
+				if i > 0 && tps[i-1].Name != "_" && g.Chance(50) {
 					arg = tps[i-1].Name
 				}
 				tp.Con, tp.Kind = &Ty{K: KNamed, Name: nc.d.Name, Pkg: nc.p, Args: []*Ty{{K: KTParam, Name: arg}}}, "self-referential"
@@ -1202,6 +1232,13 @@ func (g *G) genTParams(skipEnsure bool) ([]TParamDecl, bool) {
 			}
 		}
 		g.label("constraint:" + tp.Kind)
+		switch tp.Kind {
+		case "any", "comparable", "union-inline", "union-named", "element-then-union", "method-iface":
+			if n >= 2 && g.Chance(8) {
+				tp.Name = "_" // blank type parameter: never referenced, the mock must still name it
+				g.label("tparam:blank")
+			}
+		}
 		tps = append(tps, tp)
 	}
 	return tps, hard
@@ -1281,11 +1318,15 @@ func (g *G) genIface(cfgSkipEnsure bool) *Iface {
 		it.TParams, hard = g.genTParams(cfgSkipEnsure)
 		it.HardConstraint = hard
 		for _, tp := range it.TParams {
-			g.tparams = append(g.tparams, tparam{Name: tp.Name, Cmp: tp.Cmp, Kind: tp.Kind})
+			if tp.Name != "_" {
+				g.tparams = append(g.tparams, tparam{Name: tp.Name, Cmp: tp.Cmp, Kind: tp.Kind})
+			} else if g.excluded("F-L") {
+				g.forceNamed = true
+			}
 		}
 		g.label("iface:generic")
 	}
-	defer func() { g.tparams = nil }()
+	defer func() { g.tparams = nil; g.forceNamed = false }()
 	if g.Chance(g.P.EmbedPct) {
 		ne := g.Int(1, 2)
 		for i := 0; i < ne; i++ {
@@ -1343,8 +1384,18 @@ func (g *G) genIface(cfgSkipEnsure bool) *Iface {
 	if len(it.AllMeths) == 0 {
 		g.label("iface:empty")
 	}
+	if len(it.TParams) == 0 && g.Chance(7) {
+		it.LiteralAlias = true
+		g.label("iface:literal-alias")
+	}
 	// fluent / self-referential interfaces: a method returns (or takes) the interface itself
-	if len(it.Methods) > 0 && g.Chance(12) {
+	hasBlank := false
+	for _, tp := range it.TParams {
+		if tp.Name == "_" {
+			hasBlank = true
+		}
+	}
+	if len(it.Methods) > 0 && !it.LiteralAlias && !hasBlank && g.Chance(12) {
 		self := &Ty{K: KNamed, Name: it.Name, Pkg: g.src, Cmp: true}
 		for _, tp := range it.TParams {
 			self.Args = append(self.Args, &Ty{K: KTParam, Name: tp.Name})
@@ -1417,6 +1468,9 @@ func (it *Iface) render(q Qual) string {
 	if it.DefOf != nil {
 		b.WriteString(" " + it.DefOf.Render(q) + "\n")
 		return b.String()
+	}
+	if it.LiteralAlias {
+		b.WriteString(" =")
 	}
 	b.WriteString(" interface {\n")
 	for _, e := range it.Embeds {
